@@ -15,7 +15,7 @@ _NORM_SEGS = [
     ('std::ops::bit::', 'std::ops::'), ('std::iter::traits::iterator::', 'std::iter::'),
     ('std::iter::traits::collect::', 'std::iter::'), ('libc::unix::timespec', 'libc::timespec'),
     ('std::sync::mpmc::', 'std::sync::mpsc::'), ('std::thread::functions::', 'std::thread::'),
-    ('std::thread::join_handle::', 'std::thread::'),
+    ('std::thread::join_handle::', 'std::thread::'), ('std::ops::index::', 'std::ops::'),
 ]
 
 
